@@ -69,9 +69,11 @@ def random_pattern(rng):
         if rng.random() < 0.4:
             x = quant(x)
         k = rng.random()
-        if k < 0.15:
+        if k < 0.08 and not x[0] == "tok":
+            return ["new", rng.choice(["MatchAtStart", "MatchAtEnd", "MatchAtLineStart", "MatchAtLineEnd"]), x]
+        if k < 0.2:
             return ["new", "Capture", x] + ([rng.choice(["g", "h"]) + str(rng.randrange(100))] if rng.random() < 0.4 else [])
-        if k < 0.25:
+        if k < 0.3:
             return ["new", "Group", x, rng.random() < 0.5]
         return x
 
